@@ -17,6 +17,10 @@ Line-protocol front end of the C14 model (requests after the leading `C14` field
   codes  <root> <exts> <files> <names>   the importer alone: `importSeq` over the csv of names
          → csv of the code identity the importer's cache holds for each name afterwards ("-" = none)
            TAB codeInj TAB opens
+  reach  <exts> <file keys csv> <kind> <a> <b>    one import statement evaluated on its own against a module
+         table with these files (empty bodies): → accept|reject TAB hex(file reached)|- TAB csv(requested names)
+  mix    <fuel> <limit> <root> <exts> <keys> <files> <main>   (arguments of `run`)
+         → out TAB csv(file of each body execution, in order) TAB runsOncePerFile TAB oneObjectPerFile TAB dump
 -/
 namespace Risor.C14
 open Risor.Util
@@ -142,6 +146,32 @@ def handle : List String → String
           match st.compiled.lookup n with | some c => toString c | none => "-")),
         toString (codeInj st), showCsv st.opens]
     | _, _, _, _ => "error\tbad-request"
+  | ["reach", exts, files, kind, a, b] =>
+    let sp : Option Spelling :=
+      match kind with
+      | "ident" => (fromHex a).map .ident
+      | "quoted" => (fromHex a).map .quoted
+      | "fromdot" => do pure (.fromDotted (← csvHex a) (← fromHex b))
+      | "fromq" => do pure (.fromQuoted (← fromHex a) (← fromHex b))
+      | _ => none
+    match sp, csvHex exts, csvHex files with
+    | some sp, some exts, some files =>
+      let env : Env := { root := [47, 82], exts := exts, files := files.map (fun f => (f, [])), limit := 1024 }
+      (if accepted sp then "accept" else "reject") ++ "\t" ++
+        (match reachedFile env sp with | some f => toHexField f | none => "-") ++ "\t" ++ showCsv (requestedNames sp)
+    | _, _, _ => "error\tbad-request"
+  | ["mix", fuel, limit, root, exts, keys, files, main] =>
+    match fuel.toNat?, limit.toNat?, fromHex root, csvHex exts, csvHex keys, parseFiles files, parseStmts main with
+    | some fuel, some limit, some root, some exts, some keys, some files, some main =>
+      let env : Env := { root := root, exts := exts, files := files, limit := limit }
+      let r := run env fuel main
+      let st := r.2
+      let d := dump st keys 5 "main" 0
+      "\t".intercalate [showOut r.1.1,
+        showCsv (st.ticks.map fun n => (fileOf env n env.exts).getD (63 :: n)),
+        toString (runsOncePerFile env st), toString (oneObjectPerFile env st),
+        (if d.isEmpty then "-" else ",".intercalate d)]
+    | _, _, _, _, _, _, _ => "error\tbad-request"
   | _ => "error\tunknown-request"
 
 end Risor.C14
